@@ -693,7 +693,7 @@ func TestVerifC20Logger(t *testing.T) {
 						atomic.AddInt64(&distinct, 1)
 					}
 				}
-				if i%9973 == 11 && c.Accept {
+				if i%2503 == 11 && c.Accept {
 					mu.Lock()
 					if len(samples) < 3 {
 						samples = append(samples, fmt.Sprintf("%q on event %d => %q", c20Format(c.Fmt), c.E, c.Lines))
